@@ -1186,7 +1186,15 @@ pub fn derive_ex_derive(input: proc_macro::TokenStream) -> proc_macro::TokenStre
 }
 
 fn build(attr: TokenStream, item: TokenStream) -> Result<TokenStream> {
+    let item_tokens = item.clone();
     let mut item: Item = parse2(item)?;
+    if let Item::Impl(item_impl) = &item {
+        // An impl is emitted again token for token: fragments of `macro_rules!` macros in its bodies
+        // (`$p:pat`, `$s:stmt`, ...) keep their grouping only in the original tokens.
+        let ts = item_impl::build_by_item_impl(attr, item_impl)
+            .unwrap_or_else(|e| e.to_compile_error());
+        return Ok(quote!(#item_tokens #ts));
+    }
     // Also for the item that is emitted again: the groups would be lost there as well.
     syn::visit_mut::VisitMut::visit_item_mut(&mut syn_utils::ResolveGroups, &mut item);
     let ts = match &mut item {
